@@ -223,8 +223,16 @@ class PackageGenerator:
     def desc(self, kind: str, owner: str, name: str = "") -> str:
         tok = self.tokens.new(kind, owner, name)
         uni = " (naïve café ✓)" if self.f("UNICODE_DOC") and self.r.random() < 0.3 else ""
-        second = f"\n\nSecond paragraph of {tok}." if self.r.random() < 0.25 and kind in "CF" else ""
-        return f"Summary {tok}{uni}.{second}"
+        second = ""
+        if kind in "CF":
+            x = self.r.random()
+            if x < 0.2:
+                second = f"\n\nSecond paragraph of {tok}."
+            elif x < 0.3:
+                second = f"\ncontinued line of {tok}\n\nThird block of {tok}:\nwith two lines."
+        text = f"Summary {tok}{uni}.{second}"
+        self.tokens.table[tok]["lines"] = [ln for ln in text.split("\n")]
+        return text
 
     def pick_type(self, mod: _Module, depth: int = 0) -> str:
         r = self.r
